@@ -154,6 +154,15 @@ CHECKS["C07"] = dict(
     parts=[rapid_part("rapid", "compose", "TestC07", 8000, 80000, replay_test="TestC07Replay")],
 )
 
+CHECKS["C15"] = dict(
+    technique="property-based testing (rapid) of Workflow field mappings against an independent reflect-based path get/set reference; overlap predicate with permuted declaration orders; Invoke vs Stream differential",
+    level_text="Generated mapping sets (1-5 mappings, paths of depth <= 3 from tables over structs, pointers, maps, map-of-struct, map-of-pointer and any-holes; whole->field, field->whole, field->field) from two predecessors into one successor, declared in a generated order, reversed and rotated, in one AddInput call per predecessor or one call per mapping; source values with interface positions holding every dynamic type incl. nil and typed nil. Overlapping target sets must be rejected by Compile in every order tried. For accepted overlap-free sets the successor's actual input is compared with a reference built by an independent get/set over reflect values (everything else zero, nil==empty), on two Invokes and one Stream, and the sources must be unchanged; where the reference cannot evaluate a mapping on the given input (missing key, nil on the way, non-assignable dynamic type) the run must return an ordinary error. Any panic out of Compile/Invoke/Stream is a violation.",
+    level_note="Acceptance itself is asserted only for overlaps (the direction the statement fixes); sets the framework rejects are counted, not judged. Stream mode delivers each source as a single chunk.",
+    rule="rapid draws source/target type, a source value and 1-5 mappings from the path tables (including unknown/unexported fields and mismatching types); non-trivial = >= 2 mappings and a path of depth >= 2 in an accepted set, or an overlapping set with >= 2 mappings; distinct = FNV-1a of case JSON",
+    assumptions=["nil and empty containers are considered equal when comparing the successor's input with the reference"],
+    parts=[rapid_part("rapid", "compose", "TestC15", 6000, 60000, replay_test="TestC15Replay")],
+)
+
 # properties not claimed (with reason); everything else not in CHECKS is "not built yet"
 NOT_APPLICABLE = {}
 
